@@ -130,6 +130,8 @@ def run_word(spec, res):
     w = cons.build_world(sc)
     install_word(w.cluster, api, acts)
     tr = cons.run_scenario(sc, world=w)
+    if tr.capped and cons.report_spin(res, tr):
+        return
     if tr.capped:
         res.inconclusive.append("scenario aborted: %s" % getattr(tr, "cap_reason", "?"))
         return
@@ -288,19 +290,26 @@ def run_growth(spec, res):
     mx = rng.choice((None, None, buf * 16, 1 << 20, (1 << 20) + 1, 2 << 20, 4 << 20, size + 100, size - 1, buf))
     if mx is not None and mx < buf:
         mx = buf
-    log = [dict(offsets=[10], sizes=[20], magic=0, codec=0),
+    log = [dict(offsets=[9], sizes=[20], magic=0, codec=0),
            dict(offsets=[11], sizes=[size], magic=rng.choice((0, 1)), codec=0),
            dict(offsets=[12, 13], sizes=[30, 30], magic=0, codec=rng.choice((0, 1)))]
-    sc = base_scenario(spec["seed"], dict(buffer_size=buf, max_buffer_size=mx, discovery=rng.random() < 0.5), ["num", 10],
+    rng_h = random.Random(spec["seed"] ^ 0x4011)
+    if rng_h.random() < 0.35:
+        # a wrapper whose records were all compacted away sits right in front of the oversized record
+        log.insert(1, dict(offsets=[10], sizes=[], magic=rng_h.choice((0, 1)), codec=1, hollow=True))
+        res.hit("hollow_wrapper_before_oversized_record")
+    sc = base_scenario(spec["seed"], dict(buffer_size=buf, max_buffer_size=mx, discovery=rng.random() < 0.5), ["num", 9],
                        log=log, horizon=6.0)
     tr = cons.run_scenario(sc)
+    if tr.capped and cons.report_spin(res, tr):
+        return
     if tr.capped:
         res.inconclusive.append("scenario aborted: %s" % getattr(tr, "cap_reason", "?"))
         return
     res.n_sub += 1
     fetches = [e for e in tr.cluster.history if "req" in e and e["api"] == "Fetch"]
     seq = [e["req"]["topics"][0]["partitions"][0]["max_bytes"] for e in fetches
-           if e["req"]["topics"][0]["partitions"][0]["offset"] == 11]
+           if e["req"]["topics"][0]["partitions"][0]["offset"] in (10, 11)]
     # collapse repeats caused by empty long-polls at the same size
     sizes = [seq[0]] if seq else []
     for b in seq[1:]:
